@@ -112,6 +112,9 @@ func UnmarshalDigitallySigned(r io.Reader) (*DigitallySigned, error) {
 
 func marshalDigitallySignedHere(ds DigitallySigned, here []byte) ([]byte, error) {
 	sigLen := len(ds.Signature)
+	if sigLen > (1<<(8*SignatureLengthBytes))-1 {
+		return nil, errors.New("signature too large")
+	}
 	dsOutLen := 2 + SignatureLengthBytes + sigLen
 	if here == nil {
 		here = make([]byte, dsOutLen)
